@@ -126,7 +126,7 @@ def step (st : St) (line : String) : St × String :=
     | _, _, _, _ => (st, "bad-op")
   | cmd :: args =>
     match st.cfg with
-    | none => (st, (unitStep cmd args).getD "bad-op no-cfg")
+    | none => (st, (unitStep st.geom.treeFrames cmd args).getD "bad-op no-cfg")
     | some c =>
       match cmd, args with
       | "get", [o, k, l, f] =>
